@@ -59,6 +59,8 @@ def run_jobs(jobs):
 
 
 def close(a, b, atol, rtol):
+    if math.isinf(atol):
+        return True
     if math.isnan(a) and math.isnan(b):
         return True
     if math.isinf(a) or math.isinf(b):
@@ -102,7 +104,9 @@ def compare(ctx, j, prop, observables=('out', 'ld'), atol=1e-9, rtol=1e-9, check
         atol = max(atol, 2e-6 if j.prec == 'f64' else 5e-3)
     per_row = max(1, len(yl) // max(1, len(ldl)))
     unit = 1e-15 if j.prec == 'f64' else 1e-4
-    kap = [unit * math.exp(min(60.0, abs(v))) if math.isfinite(v) else 0.0 for v in ldl]
+    # a non-finite log-det (a bin whose softmax mass underflowed to exactly 0) means infinite conditioning: the row's
+    # outputs are not comparable; the log-dets themselves must still agree (inf == inf)
+    kap = [unit * math.exp(min(60.0, abs(v))) if math.isfinite(v) else float('inf') for v in ldl]
     if 'out' in observables:
         if len(out) != len(yl):
             ok = False; why = 'output sizes differ: %d vs %d' % (len(out), len(yl))
@@ -116,7 +120,7 @@ def compare(ctx, j, prop, observables=('out', 'ld'), atol=1e-9, rtol=1e-9, check
             ok = False; why = 'log-det sizes differ: %d vs %d' % (len(ld), len(ldl))
         else:
             for i, (a, b) in enumerate(zip(ldl, ld)):
-                if not close(a, b, atol * 10 + kap[i], rtol * 10):
+                if not close(a, b, atol * 10 + (kap[i] if math.isfinite(kap[i]) else 0.0), rtol * 10):
                     ok = False; why = 'logabsdet[%d]: impl %r model %r' % (i, a, b); break
     if ok and e.kind == 'ar' and j.inverse:
         # pass k+1 of the implementation must be fed the model's output of pass k
